@@ -65,6 +65,12 @@ def draw_group(rng: random.Random, template: str, *, kind=None, graft=None, filt
         override=override, mult=rng.choice([1.0, 1.0, 1.82, 0.5]) if (kind == "shampoo" and method.startswith("eigen")) else 1.0,
         qr_iters=rng.choice([1, 3, 50]), qr_tol=rng.choice([0.0, 1e-5]),
     )
+    r = rng.random()
+    if r < 0.12:
+        g["hyper_style"] = "tensor_lr"
+    elif r < 0.24:
+        g["hyper_style"] = "int"
+        g["lr"] = [0.0, 1.0, lr2]           # handed over as the int 1 (and weight_decay / dampening 0 as the int 0)
     return g
 
 
@@ -72,7 +78,7 @@ def redraw_numeric(rng: random.Random, g: dict) -> dict:
     """Same abstract configuration (structure, schedule, which buffers exist), different numbers / algebraic options."""
     h = copy.deepcopy(g)
     lr1, lr2 = rng.sample(DYADIC_LR, 2)
-    h["lr"] = [0.0, lr1, lr2]
+    h["lr"] = [0.0, 1.0 if h.get("hyper_style") == "int" else lr1, lr2]
     h["mom"] = [0.0, rng.choice([0.5, 0.75, 0.9]), rng.choice([0.3, 0.6])]
     h["b1"] = [0.0, rng.choice([0.5, 0.8, 0.9]), rng.choice([0.6, 0.7])]
     h["wd"] = [0.0, rng.choice([0.01, 0.1, 0.25])]
